@@ -2,6 +2,7 @@ use crate::Monitor;
 pub mod c01;
 pub mod selftest;
 pub mod xbsd;
+pub mod bsd_witness;
 pub mod c03;
 pub mod c04;
 pub mod cone;
